@@ -118,7 +118,20 @@ func runC03(c *Ctx, r *Rec) {
 						out = append(out, eff{"map-insert", at(s), stmtOf(s), sub([]ast.Expr{ix.Index, s.Rhs[i]})})
 					}
 					if isMap(l) {
-						out = append(out, eff{"map-reset", at(s), stmtOf(s), nil})
+						// `if v.keys == nil { v.keys = make(...) }`: the index is made where it is missing,
+						// nothing is thrown away
+						guardedByNil := false
+						chain := pathTo(fd.Body, s)
+						for ci := len(chain) - 2; ci >= 0; ci-- {
+							if is, ok := chain[ci].(*ast.IfStmt); ok && containsNode(is.Body, s) {
+								if be, ok := ast.Unparen(is.Cond).(*ast.BinaryExpr); ok && be.Op == token.EQL && (isMap(be.X) || isMap(be.Y)) && (info.Types[be.X].IsNil() || info.Types[be.Y].IsNil()) {
+									guardedByNil = true
+								}
+							}
+						}
+						if !guardedByNil {
+							out = append(out, eff{"map-reset", at(s), stmtOf(s), nil})
+						}
 					}
 					if isList(l) {
 						out = append(out, eff{"list-reset", at(s), stmtOf(s), nil})
